@@ -70,11 +70,14 @@ Fixpoint shard_go {A} (n i : nat) (j : nat) (l : list A) : list A :=
   end.
 Definition shard {A} (n i : nat) (l : list A) : list A := shard_go n i 0%nat l.
 
-(* thorough tier (checked by coqc outside the default build): every key x every casing x every
-   rendering x every class representative at lengths 1, 2 and 3 *)
+(* thorough tier (checked by coqc outside the default build, tools/props/C04.py extra_checks): every key x
+   every casing x every rendering x every class representative of the template sets at length 1; five keys
+   x every casing x every rendering x representatives inside values of lengths 2 and 3 *)
 Definition rep_values3 (reps : list N) (cls : N -> bool) : list str :=
   flat_map (fun c => [[c; 97; c]; [97; c; 98]]) (filter cls reps).
 Definition family_thorough : list case :=
   flat_map (fun k => flat_map (fun KD =>
-     mk (lit "run ") (lit " ok") (lit "***") KD (fun cls => rep_values1 reps_all cls ++ rep_values2 reps_templates cls ++ rep_values3 reps_templates cls))
-     (casings k)) spec_keys_35.
+     mk (lit "run ") (lit " ok") (lit "***") KD (rep_values1 reps_templates)) (casings k)) spec_keys_35 ++
+  flat_map (fun k => flat_map (fun KD =>
+     mk (lit "a ") (lit " z") (lit "?") KD (fun cls => rep_values2 reps_templates cls ++ rep_values3 reps_templates cls))
+     (casings k)) [lit "password"; lit "auth_password"; lit "token"; lit "cephclusterfsid"; lit "chapsecret"].
